@@ -166,8 +166,25 @@ def auditEv (impl : String) : DistSpec.Ev :=
 
 abbrev Clause := String → String → Bool → String
 
+/-- does another subscriber's record (in the model's store after the step) name the same prefix as k's? -/
+def recordCollides (model : Model) (k : Nat) : Bool :=
+  let store : Store := match model with
+    | .session s => s.store
+    | .lease s => s.store
+    | _ => []
+  match AMap.lookup store k with
+  | some r => store.any fun p => p.1 != k && p.2.addr == r.addr && p.2.plen == r.plen
+  | none => false
+
 def result (st : St) (model : Model) (obs : String) (ev : DistSpec.Ev) (clause : Clause) : St × LineResult :=
-  let (mon', vs) := DistSpec.check st.mon ev
+  let (mon0, vs) := DistSpec.check st.mon ev
+  -- the collision mark of a subscriber ends when its record is deleted by a remote delete, or rewritten by a
+  -- local operation that answered ok and the (re)written record collides with nobody's
+  let mon' := match ev with
+    | .remoteDel k => { mon0 with conflicted := mon0.conflicted.filter (· != k) }
+    | .mutated k _ =>
+      if recordCollides model k then mon0 else { mon0 with conflicted := mon0.conflicted.filter (· != k) }
+    | _ => mon0
   ({ st with model := model, mon := mon' },
    { modelObs := obs, viols := vs.map fun (n, d, coll) => (n, clause n d coll, d) })
 
@@ -469,10 +486,12 @@ def stepRtBitmap (st : St) (a : Bitmap.State) (b : Option Bitmap.State) (toks : 
       | some b =>
         -- D40 is about the allocation hint only: a read-only difference is attributed to it solely as the
         -- consequence of an earlier divergent allocation
-        let clause := fun (v : String) => if v == "roundtrip" && st.diverged then "D40" else "none"
+        -- … AND only when the model (which has the hint behaviour of D40 and nothing else) gives exactly this pair
+        let obs := s!"{probeBitmap a n} | {probeBitmap b n}"
+        let clause := fun (v : String) => if v == "roundtrip" && st.diverged && obs == impl then "D40" else "none"
         let (mon', vs) := DistSpec.check st.mon (forkEv impl)
         ({ st with mon := mon' },
-         { modelObs := s!"{probeBitmap a n} | {probeBitmap b n}", viols := vs.map fun (v, d, _) => (v, clause v, d) })
+         { modelObs := obs, viols := vs.map fun (v, d, _) => (v, clause v, d) })
     | none => (st, { modelObs := "badop" })
   | _ =>
     match BitmapDrv.parseOp toks with
@@ -495,7 +514,9 @@ def stepRtBitmap (st : St) (a : Bitmap.State) (b : Option Bitmap.State) (toks : 
           | _ => false
         -- the exclusion clause of D40: after a SetAllocation move, the two copies hand a new subscriber
         -- different units (hint not serialised); later differences are its consequence
-        let d40 := st.moved && ((isAlloc && divergentAlloc impl) || st.diverged)
+        -- … and only on a line where the model (hint behaviour of D40 and nothing else) gives exactly this pair
+        let obs := s!"{shown a oa} | {shown b ob}"
+        let d40 := st.moved && ((isAlloc && divergentAlloc impl) || st.diverged) && obs == impl
         let clause := fun (v : String) => if v == "roundtrip" && d40 then "D40" else "none"
         let (mon', vs) := DistSpec.check st.mon (forkEv impl)
         ({ st with model := .rtBitmap a' (some b'), mon := mon', moved := moved,
@@ -545,30 +566,37 @@ def lmonForget (m : LeaseSpec.Mon) (k : Nat) : LeaseSpec.Mon :=
 
 /-- Which of the monitor's verdicts belong to this component's reading, and under which finding's clause:
     * KF-lease-store-epoch only for a subscriber whose record's epoch stamp is NOT the code's own last write
-      (a write that failed, or a record stamped by another node) — a lease the code itself refreshed in the
-      store is never excused;
+      (a write that failed, or a record stamped by another node) AND for whom the epoch has moved since that
+      record was written — a lease the code itself refreshed in the store is never excused;
     * KF-dist-remote-collision only for subscribers / prefixes the C12 monitor has marked as collided. -/
 def lmonClause (st : St) (ev : LeaseSpec.Ev) (v : String) : String :=
   let collided := fun (k : Nat) => st.mon.conflicted.contains k
+  -- the record's stamp is stale AND the epoch has moved since it was written: only then can the two expiry
+  -- clocks have parted
+  let clocksApart := fun (k : Nat) => st.staleRec.contains k && st.tickSince.contains k
+  let plen := match st.model with
+    | .session s => s.a.cfg.plen
+    | _ => 32
   match v, ev with
   | "unique", .got k a =>
     match PoolSpec.holderOf (AMap.erase st.lmon.mon k) a with
     | some k' =>
       if st.staleEcho.contains k' then "KF-stale-delete-echo"
-      else if st.staleRec.contains k' then "KF-lease-store-epoch"
-      else if collided k' || collided k || st.mon.badPfx.any (fun p => p.1 == a) then "KF-dist-remote-collision"
+      else if clocksApart k' then "KF-lease-store-epoch"
+      else if collided k' || collided k || st.mon.badPfx.contains (a, plen) then "KF-dist-remote-collision"
       else "none"
     | none => "none"
   | "idempotent", .got k _ =>
-    if st.staleRec.contains k then "KF-lease-store-epoch"
+    if st.staleEcho.contains k then "KF-stale-delete-echo"
+    else if clocksApart k then "KF-lease-store-epoch"
     else if collided k then "KF-dist-remote-collision" else "none"
   | "reclaimed", .looked k _ =>
     if st.staleEcho.contains k then "KF-stale-delete-echo"
-    else if st.staleRec.contains k then "KF-lease-store-epoch"
+    else if clocksApart k then "KF-lease-store-epoch"
     else if collided k then "KF-dist-remote-collision" else "none"
   | "reclaimed", .renewRefused k =>
     if st.staleEcho.contains k then "KF-stale-delete-echo"
-    else if st.staleRec.contains k then "KF-lease-store-epoch"
+    else if clocksApart k then "KF-lease-store-epoch"
     else if collided k then "KF-dist-remote-collision" else "none"
   | _, _ => "none"
 
@@ -623,7 +651,13 @@ def lmonStep (st : St) (toks : List String) (impl : String) : St × List (String
       else match parseAddrLen impl with
         -- a holding the monitor has no record of (after a restart or a replicated change): adopted, and checked
         -- for uniqueness and range like a fresh grant
-        | some (x, _) => if held k then feed (.looked k (some x)) else feed (.got k x)
+        | some (x, _) =>
+          if held k then feed (.looked k (some x))
+          else
+            -- when the adopted lease was last refreshed is unknown: it is taken to be in its LAST epoch of grace
+            let (st1, vs) := feed (.got k x)
+            ({ st1 with lmon := { st1.lmon with
+                renewed := AMap.insert st1.lmon.renewed k (st1.lmon.epoch - st1.lmon.grace) } }, vs)
         | none => (st, [])
     | none => (st, [])
   | ["restart", _] =>
